@@ -496,6 +496,12 @@ def applyView (rs : List Rule) (rederive : Bool) (i : Inst) : Except String View
     | .ok j => view rs j
   else view rs i
 
+/-- sequencing: construction may fail -/
+def andThen {β} (c : Except String Inst) (g : Inst → Except String β) : Except String β :=
+  match c with
+  | .error e => .error e
+  | .ok i => g i
+
 /-! ### ISIMIP bounds over the extended reals -/
 
 inductive ExtRat | negInf | fin (q : Rat) | posInf
